@@ -78,7 +78,7 @@ class Numbers(Sub):
             out = env.evo(form % text)
             want = adj(exact)
             if out[0] == 'v' and isinstance(out[1], dict) and '$int' in out[1]:
-                out = ['v', int(out[1]['$int'])]
+                out = ['v', env.dec(out[1])]
             ok = out[0] == 'v' and isnum(out[1])
             if ok:
                 if kind == 'int':
@@ -141,6 +141,12 @@ class Numbers(Sub):
                 f = self.one(env, '%d^%d' % (a, b), Fraction(a ** b), 'int')
                 if f:
                     out.append(f)
+            # ... and beyond the largest double, like the digit literal of the same number (2^1024, 10^342, 3^1023 ...)
+            if a >= 2:
+                for b in (341, 342, 512, 1023, 1024, 1025, 2000):
+                    f = self.one(env, '%d^%d' % (a, b), Fraction(a ** b), 'int')
+                    if f:
+                        out.append(f)
         else:
             for nd in (20, 40, 400):
                 for pat in ('1234567890', '9', '10', '7000000000'):
